@@ -50,6 +50,14 @@ def replay(u, obs, prop, seed):
     for o in obs:
         lines.append('  ' + vf.fmt_ob(o))
     found = False
+    if u.get('kind') == 'native':
+        # the bounded native enumeration already ran on the real code: its failing case IS the replay
+        r = vf.run_native_unit(u)
+        lines += ['', 'bounded native enumeration (%s), real code built from /repo working tree:' % u['driver'], r.get('native_output', r['reason'])]
+        found = r['status'] == 'fail'
+        with open(path, 'w') as f:
+            f.write('\n'.join(lines) + '\n')
+        return path, found
     rp = u.get('replay')
     if not rp:
         # default: the driver's test of the same name as the unit (alias/overlap variants share the base function's test)
